@@ -187,3 +187,46 @@ pub fn assumption_a3(_args: &[String]) -> i32 {
     println!("{{\"holds\":true,\"tried\":{n},\"float_lits\":{floats}}}");
     0
 }
+
+/// Packed span cursors on the real code: `Span::new(l, r).under_loc_ctx(File(..)).to_string()` must print the true
+/// 1-based line:column of both ends when they fit the 18/14-bit budget and fall back to byte offsets otherwise; never panic.
+pub fn span_witness(_args: &[String]) -> i32 {
+    use zydeco_utils::span::Span;
+    std::panic::set_hook(Box::new(|_| {}));
+    let lines_max: usize = (1 << 18) + 2;
+    // a file with `lines_max` lines, each "ab\n" except one very long line 5 (for the column budget)
+    let mut text = String::new();
+    let mut starts: Vec<usize> = Vec::new();
+    for i in 0..lines_max {
+        starts.push(text.len());
+        if i == 5 { text.push_str(&"x".repeat((1 << 14) + 3)); } else { text.push_str("ab"); }
+        text.push('\n');
+    }
+    let info = FileInfo::new(&text, Some(Arc::new(std::path::PathBuf::from("w.zy"))));
+    let ctx = LocationCtx::File(info);
+    let mut n = 0u64;
+    let line_cands = [0usize, 1, 4, 5, 6, (1 << 18) - 3, (1 << 18) - 2, (1 << 18) - 1, 1 << 18, (1 << 18) + 1];
+    for &l1 in &line_cands {
+        for &c1 in &[0usize, 1, 2, (1 << 14) - 1, 1 << 14, (1 << 14) + 1] {
+            let len1 = if l1 == 5 { (1 << 14) + 3 } else { 2 };
+            if c1 > len1 { continue; }
+            for &(l2, c2) in &[(l1, c1), (l1, len1), (lines_max - 1, 1usize), (1usize << 18, 1usize), ((1usize << 18) - 1, 2usize), ((1usize << 18) - 2, 2usize)] {
+                let (a, b) = (starts[l1] + c1, starts[l2] + c2);
+                if b < a { continue; }
+                n += 1;
+                let fits = |l: usize, c: usize| l + 1 <= (1 << 18) - 1 && c <= (1 << 14) - 1;
+                let want = if fits(l1, c1) && fits(l2, c2) { format!("w.zy:{}:{} - {}:{}", l1 + 1, c1 + 1, l2 + 1, c2 + 1) } else { format!("w.zy:{a}-{b}") };
+                let got = std::panic::catch_unwind(|| Span::new(a, b).under_loc_ctx(&ctx).to_string());
+                let bad = match &got { Ok(s) => s != &want, Err(_) => true };
+                if bad {
+                    let input = format!("{l1}:{c1}-{l2}:{c2}");
+                    let detail = match got { Ok(s) => format!("span printed as `{s}`, expected `{want}`"), Err(_) => format!("rendering the span panicked (expected `{want}`)") };
+                    println!("{{\"found\":true,\"tried\":{n},\"input\":{},\"clause\":\"COMPACT-ROUNDTRIP\",\"detail\":{}}}", esc(&input), esc(&detail));
+                    return 1;
+                }
+            }
+        }
+    }
+    println!("{{\"found\":false,\"tried\":{n}}}");
+    0
+}
